@@ -22,7 +22,7 @@ func init() {
 			"destination and its reply came back; distinct = distinct (pair, options, session count, fault mix) shape",
 		Real:         []string{"service (config, manager, UDP NAT relay, UDP session relay; generic and mmsg paths)", "router", "direct", "ss2022 UDP", "socks5 UDP", "zerocopy", "netio", "conn (addresses, control messages, sockaddr conversion)", "cred (multi-user store on the simulated disk)"},
 		Stub:         []string{"kernel UDP, recvmmsg/sendmmsg (simnet)", "resolver (simnet table)", "socket options", "clock (synctest)", "crypto/rand, math/rand/v2"},
-		Assumptions:  []string{"harness edge endpoints use the repository's own packers/unpackers (checked separately by C04/C05)", "SOCKS5 as the relay's UDP client protocol is not driven (needs a TCP association with a harness SOCKS5 server)"},
+		Assumptions:  []string{"harness edge endpoints use the repository's own packers/unpackers (checked separately by C04/C05)"},
 		ExpectProbes: []string{"c11.garbage-phase", "c11.client-address-change", "udp.recvmmsg-batch"},
 	})
 }
